@@ -16,3 +16,18 @@ Example C05_examples :
     = [(s2l "dataset_name", s2l "name of dataset"); (s2l "id", s2l "[PK]")]
   /\ ensure_pk false [(s2l "a", s2l "[PK] x"); (s2l "b_id", s2l "y")] = [(s2l "a", s2l "[PK] x"); (s2l "b_id", s2l "y")].
 Proof. repeat split; vm_compute; reflexivity. Qed.
+
+(* Where the three emitters get their columns (Gen/SqlEmitters.v, regenerated from cdd/sqlalchemy/emit.py on every run): the Table
+   expression and the declarative class both map param_to_sqlalchemy_column_calls over
+   ensure_has_primary_key(intermediate_repr["params"], force_pk_id), and the hybrid class delegates to sqlalchemy_table forwarding
+   the interface and force_pk_id unchanged.  With C05_one_pk this is why the three variants carry the same columns and one key. *)
+From Coq Require Import String.
+From CDD Require Import SqlEmitters.
+Theorem C05_variants_share_the_column_source :
+  sql_emitter_calls =
+  [("sqlalchemy_table", "param_to_sqlalchemy_column_calls", "include_name=True");
+   ("sqlalchemy_table", "ensure_has_primary_key", "intermediate_repr['params'], force_pk_id");
+   ("sqlalchemy", "param_to_sqlalchemy_column_calls", "name_param, include_name=False");
+   ("sqlalchemy", "ensure_has_primary_key", "intermediate_repr['params'], force_pk_id");
+   ("sqlalchemy_hybrid", "sqlalchemy_table", "docstring_format=docstring_format, emit_default_doc=emit_default_doc, emit_original_whitespace=emit_original_whitespace, force_pk_id=force_pk_id, intermediate_repr=intermediate_repr, name='__table__', table_name=table_name or intermediate_repr['name'], word_wrap=word_wrap")]%string.
+Proof. vm_compute. reflexivity. Qed.
